@@ -1334,3 +1334,58 @@ Example C05_db_sample_insert_new_alias_run :
                imap_value (aliases (insert_new_alias sx_db 2%Z sa_new)) sx_alias = Some 1%Z.
 Proof. exact sb_sample. Qed.
 Print Assumptions C05_db_sample_insert_new_alias_run.
+
+(* ---- insert_new_alias with the CODE's grow and in-place rehash (theories/StoredDbOpsAlias4.v .. Alias8.v) ----
+   so_rehash_loop / so_rehash_values = MultiMapImpl::rehash_values (state(i); Deleted below the new capacity -> set_state Empty;
+   Valid not yet placed -> key(i), probe the in-memory occupancy bits from hash % new_capacity, swap(i, pos)), proved against
+   OpenMap.v's rehash_loop (so_rehash_loop_spec: the table left has exactly the model's slot list); so_map_rip =
+   rehash_in_place; so_map_rehash / so_map_grow = rehash(capacity * 2) = DbMapData::resize(max(2 * capacity, 64)) then
+   rehash_values; so_map_code = these two as the so_map_rest of the code.
+   C05_map_insert_absent_any_fill_partial: MapImpl::insert of an absent key with so_map_code on ANY represented DbMapData that
+     satisfies C19's invariant (minimum capacity 64) — empty (capacity 0: grows to 64), full (grows to twice the capacity), or
+     without an Empty slot (full probe cycle: inserts at the first Deleted slot and rehashes in place): the table left is the
+     one OpenMap.v's insert_or_replace computes (PInv again, pairs = (key, value) :: old pairs as a multiset).
+   C05_db_insert_new_alias_any_fill_preserves_stored_db_partial: so_alias_insert_new with so_alias_code (the code's grow /
+     rehash for both tables) keeps the database stored, for ANY fill of the two alias tables.
+   _partial — STILL ASSUMED: so_alias_tables_ok (PInv of the two stored tables, explicit hypothesis, re-established); the alias
+   is new and the id has no alias (then the two removals of IndexedMapImpl::insert are not executed: they stay parameters rm1,
+   rm2); the elements are valid, len + 1 < 2^64, and a table that grows keeps its three vectors below 2^64 bytes
+   (so_alias_new_ok2 / so_grow_ok); hash functions: every function. *)
+From Agdb Require Import StoredDbOpsAlias4 StoredDbOpsAlias5 StoredDbOpsAlias6 StoredDbOpsAlias7 StoredDbOpsAlias8.
+
+Theorem C05_map_insert_absent_any_fill_partial :
+  forall (K V : Type) (EK : cv_elem K) (EV : cv_elem V) (LK : elem_law EK) (LV : elem_law EV)
+         (keqb : K -> K -> bool) (veqb : V -> V -> bool) (hk : K -> N) (kdef : K) (vdef : V) (fl : bool),
+    (forall a b, keqb a b = true <-> a = b) -> (forall a b, veqb a b = true <-> a = b) ->
+    el_valid LK kdef -> el_valid LV vdef ->
+  forall d ss ks vs t key nv sp,
+    mrep K V EK EV LK LV (hp sp) d ss ks vs t -> OpenMapRefineStep.PInv K V hk 64 (ct_omap K V t) ->
+    so_key_absent K V keqb (ct_slots K V (ct_states t) (ct_keys t) (ct_values t)) key ->
+    el_valid LK key -> el_valid LV nv -> (ct_len t + 1 < two64)%N ->
+    ((so_max_len (lenN (ct_states t)) <= ct_len t)%N -> so_grow_ok K V EK EV t) ->
+    cwp fl (so_map_insert K V EK EV keqb hk (so_map_code K V EK EV hk kdef vdef) d key nv) sp
+        (fun r sp' => exists d' ss' ks' vs' t',
+           r = CrOk (d', None) /\ mrep K V EK EV LK LV (hp sp') d' ss' ks' vs' t' /\ cm_index d' = cm_index d /\
+           OpenMapRefineStep.PInv K V hk 64 (ct_omap K V t') /\
+           Permutation (sd_table_entries t') ((key, nv) :: sd_table_entries t) /\
+           sdepth sp' = sdepth sp /\
+           frame (hp sp) (hp sp') (mfoot K V EK EV LK LV d ss ks vs) (mfoot K V EK EV LK LV d' ss' ks' vs')).
+Proof.
+  intros K V EK EV LK LV keqb veqb hk kdef vdef fl E1 E2 D1 D2 d ss ks vs t key nv sp HM HP Ha VK VV HL HG.
+  eapply (so_map_insert_absent_full K V EK EV LK LV keqb veqb hk kdef vdef fl E1 E2 D1 D2); eauto.
+  intros d' ss' ks' vs' t' sp' A B C D E F. exists d', ss', ks', vs', t'. auto 10.
+Qed.
+Print Assumptions C05_map_insert_absent_any_fill_partial.
+
+Theorem C05_db_insert_new_alias_any_fill_preserves_stored_db_partial :
+  forall (hs : bytes -> N) (hi : Z -> N) (fl : bool) rm1 rm2 root d w h a id alias sp,
+    stored_db_w (hp sp) root d w -> so_handles h w -> so_alias_handles a w -> so_alias_tables_ok hs hi 64 w ->
+    imap_value (aliases d) alias = None -> imap_key (aliases d) id = None ->
+    so_alias_new_ok2 w id alias ->
+    cwp fl (so_alias_insert_new hs hi (so_alias_code hs hi rm1 rm2) a id alias) sp
+        (fun r sp' => exists a' w', r = CrOk a' /\ stored_db_w (hp sp') root (insert_new_alias d id alias) w' /\
+                        so_handles h w' /\ so_alias_handles a' w' /\ so_alias_tables_ok hs hi 64 w' /\
+                        (exists m1 m2, w' = sd_with_a2 (sd_with_a1 w m1) m2) /\
+                        sdepth sp' = sdepth sp /\ frame (hp sp) (hp sp') (sd_foot root w) (sd_foot root w')).
+Proof. exact so_alias_insert_new_stored_full. Qed.
+Print Assumptions C05_db_insert_new_alias_any_fill_preserves_stored_db_partial.
